@@ -19,6 +19,7 @@
   breakdowns under inversion.
 -/
 import GoblVerif.Spec.C17
+import GoblVerif.Generated.CalcFacts
 import GoblVerif.Proofs.CalcNeg
 import GoblVerif.Proofs.CalcPerm
 import GoblVerif.Proofs.CalcInvert
@@ -185,5 +186,29 @@ example : (calcLine exactOps "EUR" 2 [] .precise (invertLine
       discounts := [{ percent := some ⟨⟨10, 2⟩⟩, base := none, amount := ⟨0, 0⟩, rate := none, quantity := none }],
       charges := [], breakdown := [], taxes := [] })).toOption.map (fun l => (l.sum, l.total)) =
     some (some ⟨-300150, 4⟩, some ⟨-270135, 4⟩) := by decide
+
+/-! ## pinned source shapes (regenerated facts; tools/pin_calc_expect.py) -/
+
+namespace ExpectCalc
+open GoblVerif.Generated.Calc
+
+theorem calls_Invoice_Invert_as_modelled : calls_Invoice_Invert =
+    ["New", "Invert", "Invert", "Invert", "invertAmountPtr", "Invert", "invertAmountPtr", "invertAmountPtr", "Invert", "invertAmountPtr", "Invert", "invertAmountPtr", "Invert", "Calculate", "Equals", "Errorf", "String", "String"] := by decide
+theorem conds_Invoice_Invert_as_modelled : conds_Invoice_Invert =
+    ["inv.Totals == nil", "inv.Payment != nil", "err := inv.Calculate(); err != nil", "!payable.Equals(inv.Totals.Payable)"] := by decide
+theorem calls_removeIncludedTaxes_as_modelled : calls_removeIncludedTaxes =
+    ["canRemoveIncludedTaxes", "getTax", "getTotals", "calculate", "getTotals", "getTotals", "setTotals", "new", "getLines", "getLines", "removeLineIncludedTaxes", "getDiscounts", "len", "removeIncludedTaxes", "getCharges", "len", "removeIncludedTaxes", "getTax", "calculate", "getTotals", "Equals", "Subtract", "calculate"] := by decide
+theorem conds_removeIncludedTaxes_as_modelled : conds_removeIncludedTaxes =
+    ["!canRemoveIncludedTaxes(doc)", "doc.getTotals() == nil", "err := calculate(doc); err != nil", "doc.getTotals() == nil", "len(discounts) > 0", "len(charges) > 0", "err := calculate(doc); err != nil", "!totalWithTax.Equals(t.TotalWithTax)", "err := calculate(doc); err != nil"] := by decide
+theorem calls_Discount_removeIncludedTaxes_as_modelled : calls_Discount_removeIncludedTaxes =
+    ["Get", "Remove", "Upscale"] := by decide
+theorem conds_Discount_removeIncludedTaxes_as_modelled : conds_Discount_removeIncludedTaxes =
+    ["rate == nil || rate.Percent == nil"] := by decide
+theorem calls_Charge_removeIncludedTaxes_as_modelled : calls_Charge_removeIncludedTaxes =
+    ["Get", "Remove", "Upscale"] := by decide
+theorem conds_Charge_removeIncludedTaxes_as_modelled : conds_Charge_removeIncludedTaxes =
+    ["rate == nil || rate.Percent == nil"] := by decide
+
+end ExpectCalc
 
 end GoblVerif.Props.C17
